@@ -7,6 +7,13 @@ def tasks(tier, seed):
     ts = SC.session_tasks(tier, ['CHECK_C04'], 'c04', ('C04:',))
     ts += SC.session_tasks(tier, ['CHECK_C04'], 'c04', ('C04:',), slow=True)     # slow producer: workers wait mid-container
     ts += SC.big_session_tasks(tier, 'c04', ('C04:',))
+    # the last object's data ends exactly on a container boundary and only its padding follows (2 and 5 objects: the last
+    # one is an AppText with objectSize % 4 != 0)
+    for nobj, div in ((2, 1), (5, 2)) if tier == 'quick' else ((2, 1), (2, 2), (5, 1), (5, 2), (5, 4)):
+        for t in SC.session_tasks('quick', ['CHECK_C04'], 'c04_lastpad%d_%d' % (nobj, div), ('C04:',), nobj=nobj)[:1 if tier == 'quick' else 2]:
+            t.text = '#define LAST_PADDING_AT_BOUNDARY %d\n' % div + t.text
+            t.desc = 'container size = (payload - padding of the last object) / %d: ' % div + t.desc
+            ts.append(t)
     meta = dict(
         level='model_checking',
         explanation='The real File write session (three threads, cooperative scheduler) runs symbolically; the finished in-memory '
